@@ -47,16 +47,17 @@ func typeOf(t string) string {
 }
 
 type regRun struct {
-	in    *RegistryInput
-	res   *Result
-	bid   string
-	step  int
-	w     *sim.World
-	nodes map[string]*sim.Node
-	names map[string]string                 // abstract name -> concrete
-	addrs map[string]string                 // abstract address key -> real address
-	real  map[string]string                 // real address -> abstract key
-	open  map[string]map[string]iface.Store // instance -> abstract key -> store
+	shared map[string]*orbitdb.CreateDBOptions // when set: one options value per instance, reused for every Create and Open
+	in     *RegistryInput
+	res    *Result
+	bid    string
+	step   int
+	w      *sim.World
+	nodes  map[string]*sim.Node
+	names  map[string]string                 // abstract name -> concrete
+	addrs  map[string]string                 // abstract address key -> real address
+	real   map[string]string                 // real address -> abstract key
+	open   map[string]map[string]iface.Store // instance -> abstract key -> store
 }
 
 func (r *regRun) violate(kind, detail string, exp, got interface{}) {
@@ -156,6 +157,10 @@ func (r *regRun) run(b Behaviour, idx int) {
 	for r.names["n2"] == r.names["n1"] {
 		r.names["n2"] = pick()
 	}
+	r.shared = nil
+	if idx%2 == 1 {
+		r.shared = map[string]*orbitdb.CreateDBOptions{"i1": {}, "i2": {}}
+	}
 	r.addrs, r.real = map[string]string{}, map[string]string{}
 	r.open = map[string]map[string]iface.Store{"i1": {}, "i2": {}}
 	r.res.Behaviours++
@@ -176,7 +181,14 @@ func (r *regRun) run(b Behaviour, idx int) {
 				_ = s.Close()
 				delete(r.open[i], key)
 			}
-			opts := &orbitdb.CreateDBOptions{Overwrite: &ow}
+			opts := &orbitdb.CreateDBOptions{}
+			if r.shared != nil {
+				// the caller keeps one options value per instance and sets the fields it cares about before every call
+				opts = r.shared[i]
+				opts.LocalOnly = nil
+			}
+			opts.Overwrite = &ow
+			opts.AccessController = nil
 			if len(l) > 0 {
 				opts.AccessController = sim.AccessFor(r.writers(i, l))
 			}
@@ -221,7 +233,14 @@ func (r *regRun) run(b Behaviour, idx int) {
 				delete(r.open[i], key)
 			}
 			what := fmt.Sprintf("Open(%s, %s, localOnly=%v)", i, realAddr, lo)
-			s, err := r.nodes[i].DB.Open(ctx, realAddr, &orbitdb.CreateDBOptions{LocalOnly: &lo})
+			oopts := &orbitdb.CreateDBOptions{}
+			if r.shared != nil {
+				oopts = r.shared[i]
+				oopts.Overwrite = nil
+				oopts.AccessController = nil
+			}
+			oopts.LocalOnly = &lo
+			s, err := r.nodes[i].DB.Open(ctx, realAddr, oopts)
 			r.res.Comparisons++
 			if res == "unknown" {
 				if err == nil {
